@@ -1,7 +1,8 @@
 INIT Init
 NEXT Next
 CONSTANTS
-  MaxLen = 3
-  SmallLen = 4
-  NSample = 60000
-  SampleLen = 4
+  MaxLen = 2
+  SmallLen = 3
+  SmallSize = 14
+  NSample3 = 6000
+  NSample4 = 3000
